@@ -39,7 +39,10 @@ def select_scripts(allitems, every, offset):
     strata = {}
     for idx, (hist, dev, board, _st) in enumerate(allitems):
         key = repr((sorted(board.items()) if isinstance(board, dict) else board, [(h["m"], list(h["a"]), h["s"], repr(h["env"])) for h in hist]))
-        strata.setdefault((dev, tuple(h["m"] for h in hist)[:2]), []).append((key, idx))
+        # a device swap belongs to the stratum; within a stratum histories that END in connect() rank first (after a swap or a failure it is the
+        # call that can go wrong in a new way; the other methods are dead calls there)
+        swaps = tuple(h["s"] for h in hist if h["m"] == "<replug>")
+        strata.setdefault((dev, tuple(h["m"] for h in hist)[:2], swaps), []).append(((hist[-1]["m"] != "connect", key), idx))
     chosen = []
     for members in strata.values():
         members.sort()
@@ -57,7 +60,7 @@ def g_scripts(ctx, focus, name, cfg, ncalls, start_connected, cap=None, every=1)
     conn_model = conn_real = 0
     allitems = [(hist, dev, board, None) for hist, dev, board, _st in L.scripts_from_dump(dump + ".dump", ncalls)]
     n = len(allitems)
-    strata = len({(dev, tuple(h["m"] for h in hist)[:2]) for hist, dev, _b, _s in allitems})
+    strata = len({(dev, tuple(h["m"] for h in hist)[:2], tuple(h["s"] for h in hist if h["m"] == "<replug>")) for hist, dev, _b, _s in allitems})
     for k, idx in enumerate(select_scripts(allitems, every, ctx.seed)):
         if cap and len(items) >= cap:
             break
